@@ -58,7 +58,7 @@ def createTopic (d : DS) (t : String) : DS :=
   if (findRef d t "").isSome then d else
   let d1 := drainBag 8 (stepD d (.createTopic t))
   -- GetTopic: blocking query of the lookupds for channels to pre-create (only the real one keeps keys)
-  let pre := precreate [ some ((d.rKnown.filter (fun k => k.1 == t)).map (·.2)) ]
+  let pre := precreate [ ⟨true, some ((d.rKnown.filter (fun k => k.1 == t)).map (·.2))⟩ ]
   pre.foldl (fun acc c => createChan acc t c) d1
 
 def ticks (d : DS) : DS :=
@@ -132,8 +132,24 @@ def stepLine (d : DS) (line : String) : DS × String :=
     -- one word per queried lookupd: `fail`, `-` (answered, knows nothing) or a comma separated channel list
     let parse (w : String) : Option (List String) :=
       if w == "fail" then none else if w == "-" then some [] else some (w.splitOn ",")
-    let pre := precreate (answers.map parse)
+    let pre := precreate (answers.map (fun w => ⟨true, parse w⟩))
     (d, showSet (pre.map (fun c => (c, ""))))
+  | "prex" :: answers =>
+    -- one word per CONFIGURED lookupd: `id:<ans>` (an IDENTIFY to it has succeeded) or `unid:<ans>`; <ans> = `fail`,
+    -- `none` (answered, knows nothing) or a comma separated list of hex-encoded channel names (`-` = the empty name)
+    let name (h : String) : Option String := (hexBytes h).bind (fun b => String.fromUTF8? (ByteArray.mk b.toArray))
+    let parseAns (w : String) : Option (Option (List String)) :=
+      if w == "fail" then some none else if w == "none" then some (some [])
+      else ((w.splitOn ",").mapM name).map some
+    let parse (w : String) : Option Lookupd :=
+      match w.splitOn ":" with
+      | ["id", a] => (parseAns a).map (fun x => ⟨true, x⟩)
+      | ["unid", a] => (parseAns a).map (fun x => ⟨false, x⟩)
+      | _ => none
+    match answers.mapM parse with
+    | none => (d, "bad-op")
+    | some ls =>
+      (d, "{" ++ ",".intercalate (sortStrs ((precreate ls).map (fun c => Nsq.Line.hex c.toUTF8.toList))) ++ "}")
   | _ => (d, "bad-op")
 
 partial def loop (h : IO.FS.Stream) (out : IO.FS.Stream) (d : DS) : IO Unit := do
